@@ -14,8 +14,10 @@ TECHNIQUE = ("Lean 4 theorems over an executable transcription of the Edmonds-Ka
              "differential correspondence at function granularity (re-indexed graph, every residual network, every BFS "
              "predecessor table, every augmenting path, final value) against the real functions; monitor = own "
              "Kuhn/brute-force maximum matching")
-LEVEL_TEXT = ("servers_of_happiness = size of a maximum matching, proved in Lean for every finite relation and every "
-              "iteration order of the model; model tied to the code by exact traces of the loop")
+LEVEL_TEXT = ("servers_of_happiness(m) = maxMatchingBrute(rel m) (maximum over all edge subsets injective in both coordinates), "
+              "proved in Lean for every finite relation and every dict/set iteration order (soundness, no augmenting path at "
+              "exit, optimality by a directly proved Koenig cover argument, BFS soundness/completeness, fuel sufficiency); "
+              "model tied to the code by exact traces of the loop (flow network, every residual network, BFS table, path, value)")
 LEVEL_NOTE = ("Lean kernel + standard axioms; model hand-written, tied by correspondence; the theorem takes the "
               "iteration order of every dict/set as a universally quantified input (lists in any order)")
 RULE = ("a case is one call of servers_of_happiness (or of one helper: bfs / augmenting_path_for / residual_network / "
@@ -262,11 +264,11 @@ def run(ctx):
             ctx.exhaustive = True
         else:
             # a sample of the 4x4 scope in quick mode
-            for _ in range(ctx.budget(1500, 0)):
+            for _ in range(ctx.budget(6000, 0)):
                 order = list(range(4)); rng.shuffle(order)
                 cases.append(sharemap_from_relation(4, 4, rng.getrandbits(16), order))
         # seeded larger relations, each under several insertion orders
-        for _ in range(ctx.budget(250, 6000)):
+        for _ in range(ctx.budget(600, 6000)):
             nserv = rng.randint(1, 30); nshare = rng.randint(1, 30)
             base = random_sharemap(rng, nserv, nshare, rng.choice([0.03, 0.08, 0.15, 0.3, 0.6]))
             keys = list(base.keys())
@@ -275,8 +277,10 @@ def run(ctx):
                 cases.append({k: set(base[k]) for k in keys})
 
     impl_vals, lines, descr = [], [], []
-    n_trace_budget = ctx.budget(4000, 150000)
+    n_trace_budget = ctx.budget(8000, 100000)
     trace_cases, trace_impl, trace_lines = [], [], []
+    mm_lines, mm_ref, mm_descr = [], [], []
+    mm_budget = ctx.budget(1500, 20000)
     with Recorder() as rec:
         for i, sm in enumerate(cases):
             edges = edges_of_sharemap(sm)
@@ -298,6 +302,11 @@ def run(ctx):
                 ctx.violation("servers_of_happiness differs from the maximum matching size",
                               {"sharemap": [[k, sorted(x)] for k, x in sm.items()], "impl": v, "max_matching": ref},
                               "soh-below-max" if v < ref else "soh-above-max")
+            if 0 < len(edges) <= 8 and len(mm_lines) < mm_budget:
+                # the Lean-side specification (`rel`, `maxMatchingBrute`) against the Python reference
+                mm_lines.append("mm " + enc_setmap([(k, sorted(x)) for k, x in sm.items()]))
+                mm_ref.append(str(ref))
+                mm_descr.append({"fn": "maxMatchingBrute (Lean spec) vs reference matcher", "sharemap": [[k, sorted(x)] for k, x in sm.items()]})
             impl_vals.append(str(v))
             lines.append("soh " + enc_setmap([(k, sorted(x)) for k, x in sm.items()]))
             descr.append({"sharemap": [[k, sorted(x)] for k, x in sm.items()]})
@@ -307,6 +316,8 @@ def run(ctx):
     ctx.compare("servers_of_happiness value", descr, impl_vals, ctx.model(lines))
     ctx.compare("servers_of_happiness loop trace (graph, residual networks, bfs tables, paths, value)",
                 trace_cases, trace_impl, ctx.model(trace_lines))
+    ctx.compare("Lean specification maxMatchingBrute(rel m) vs the monitor's reference maximum matching", mm_descr, mm_ref, ctx.model(mm_lines))
+    ctx.count("spec:maxMatchingBrute-vs-reference", len(mm_lines))
     ctx.count("soh:traced", len(trace_cases))
     if trace_impl:
         ctx.sample({"trace_line": trace_lines[min(5, len(trace_lines) - 1)][:200], "impl": trace_impl[min(5, len(trace_impl) - 1)][:400]})
@@ -315,7 +326,7 @@ def run(ctx):
         return
 
     # ---- B. order independence and byte-string ids (property level)
-    n_b = ctx.budget(150, 3000)
+    n_b = ctx.budget(400, 3000)
     b_descr, b_impl, b_lines = [], [], []
     for _ in range(n_b):
         nserv = rng.randint(1, 30); nshare = rng.randint(1, 30)
@@ -351,7 +362,7 @@ def run(ctx):
                 b_descr, b_impl, ctx.model(b_lines))
 
     # ---- C. helpers at function granularity on arbitrary inputs
-    n_c = ctx.budget(400, 8000)
+    n_c = ctx.budget(1000, 8000)
     c_descr, c_impl, c_lines = [], [], []
     for _ in range(n_c):
         n = rng.randint(1, 12)
